@@ -103,6 +103,7 @@ type Monitor struct {
 	StateExpr  Expr   // e.g. &c.state  (over the via-function's receiver)
 	Protects   []Expr
 	CloseOnly  []string // Type.field of channels that are only ever closed (never sent on)
+	Counters   []string // Type.field of counters only ever advanced by atomic.AddInt64(&x.f, positive constant)
 	Invariants []Clause
 	Trans      []Clause
 	Assumes    []Clause // assumptions made at entry of every action (listed as trusted)
@@ -135,7 +136,7 @@ var clauseKeywords = map[string]bool{
 	"func": true, "fun": true, "pred": true, "requires": true, "ensures": true, "modifies": true, "pure": true,
 	"ghost": true, "loop": true, "nopanic": true, "trusted": true, "panics": true, "track": true, "global-invariant": true,
 	"monitor": true, "invariant": true, "transition": true, "lemma": true, "axiom": true, "inline": true, "assert": true,
-	"props": true, "params": true, "protects": true, "snapshot": true, "abstract": true, "callee": true, "ghostvar": true, "on": true, "state": true, "closeonly": true, "assume": true,
+	"props": true, "params": true, "protects": true, "snapshot": true, "abstract": true, "callee": true, "ghostvar": true, "on": true, "state": true, "closeonly": true, "assume": true, "freshcounter": true,
 }
 
 type rawClause struct {
@@ -354,6 +355,13 @@ func (db *SpecDB) LoadSpecFile(path, pkgPath string) error {
 			}
 			for _, p := range strings.Split(rc.rest, ",") {
 				curMon.CloseOnly = append(curMon.CloseOnly, strings.TrimSpace(p))
+			}
+		case "freshcounter":
+			if curMon == nil {
+				return fmt.Errorf("%s:%d: freshcounter outside monitor", path, rc.line)
+			}
+			for _, p := range strings.Split(rc.rest, ",") {
+				curMon.Counters = append(curMon.Counters, strings.TrimSpace(p))
 			}
 		case "protects":
 			if curMon == nil {
